@@ -248,8 +248,11 @@ def run_case(ctx, case):
             env = {"VF_FAULT_PATH": True, "VF_FAULT_OPEN": "1", "VF_FAULT_ERRNO": fault[5:]}
             happened = lambda ev, t: any(e[0] == "INJECTED-OPEN" for e in ev)
         else:
-            target = "/dev/full"
-            happened = lambda ev, t: any(e[0] == "FAILED" and e[1] == "/dev/full" for e in ev)
+            # through a symbolic link: a tool that unlinks its output on failure must not remove the device node
+            target = os.path.join(d, "devfull")
+            if not os.path.islink(target):
+                os.symlink("/dev/full", target)
+            happened = lambda ev, t: any(e[0] == "FAILED" and e[1] in ("/dev/full", target) for e in ev)
         r, ev, t = rn.run(target=target, env=env)
         judge(fault, r, happened(ev, t), "n/a")
         if fault.startswith("open-") and target is not None and not r.timed_out:
